@@ -283,7 +283,7 @@ SIB_TYPES = ["real", "integer", "real(8)"]
 
 
 def sibling_cases(full):
-    for typ in SIB_TYPES if full else SIB_TYPES[:2]:
+    for typ in SIB_TYPES:
         for n in (2, 3):
             for dims in range(-1, n):               # which entity has its own (3); -1 = none
                 for ext in range(-1, n):            # which entity a separate EXTERNAL statement names; -1 = none
